@@ -7,11 +7,12 @@ PID = "C08"
 LEAN_MODULE = "NiVerif.Props.C08"
 NAMESPACE = "Props.C08"
 DRIVER = "drivers/C08.lean"
-GEN_MODULES = ["Irregular", "Regular"]
+GEN_MODULES = ["Irregular", "Regular", "GetTimestamps"]
 THEOREMS = ["genLoop_spec", "regular_kth", "genLoop_err", "regular_refuses_only_on_range", "start_time_spec",
             "irregular_window", "irregular_exact", "irregular_beyond_ValueError", "no_info_error",
             "negative_args_ValueError", "monoLoop_spec", "mono_iff", "irregular_ctor_accepts_iff",
-            "gen_direction_eq", "gen_loop_eq", "gen_monotonic_eq_model", "gen_monotonic_iff", "genLoop_succ", "genRange_adv", "gen_regular_eq_model", "gen_regular_spec", "gen_regular_err"]
+            "gen_direction_eq", "gen_loop_eq", "gen_monotonic_eq_model", "gen_monotonic_iff", "genLoop_succ", "genRange_adv", "gen_regular_eq_model", "gen_regular_spec", "gen_regular_err",
+            "gen_start_time_eq_model", "gen_get_timestamps_eq_model"]
 RULE = ("Timing objects of the three families (datetime µs, hightime ys, bintime ticks) in the three modes with seeded "
         "timestamps/offsets/intervals (negative, sub-microsecond, one-tick, near the range limits), start indices up "
         "to 10^12 and counts 0..8; list(get_timestamps(i,n)) and start_time on the real objects against exact integer "
